@@ -169,7 +169,7 @@ class Batch:
             ds["uniform_ploidy"] = 4
         else:
             bad = None
-            if cfg["fail"] and cfg["fail"]["kind"] == "real":
+            if cfg.get("fail") and cfg["fail"]["kind"] == "real":
                 bad = "pending"
             ds = datasets.generate(os.path.join(self.tmp, "ds"), cfg["data_seed"])
             ds["ploidy_arg"] = ds["ploidy_file"]
@@ -177,18 +177,24 @@ class Batch:
             ds["uniform_ploidy"] = pl.pop() if len(pl) == 1 else None
         return ds
 
-    def base_args(self, ds):
+    def base_args(self, ds, program):
         cfg = self.cfg
-        a = ["--bam"] + ds["bam_files"] + ["--ploidy", ds["ploidy_arg"], "--mcmc-seed", str(cfg["mcmc_seed"])]
-        if cfg["report"]:
-            a += ["--report"] + cfg["report"]
+        a = ["--bam"] + ds["bam_files"] + ["--ploidy", ds["ploidy_arg"]]
+        rep = list(cfg["report"])
+        if program == "assemble":
+            # Observation O2 (DESIGN.md): assemble --report GP raises IndexError when the reference
+            # haplotype is masked (G-array sized without the reference).  C07/C13 territory, not C08.
+            rep = [x for x in rep if x != "GP"]
+        if rep:
+            a += ["--report"] + rep
         return a
 
     def mcmc_args(self, program):
         cfg = self.cfg
         if program == "call-exact":
             return []
-        a = ["--mcmc-steps", str(cfg["steps"]), "--mcmc-burn", str(cfg["steps"] // 3), "--mcmc-chains", str(cfg["chains"])]
+        a = ["--mcmc-steps", str(cfg["steps"]), "--mcmc-burn", str(cfg["steps"] // 3), "--mcmc-chains", str(cfg["chains"]),
+             "--mcmc-seed", str(cfg["mcmc_seed"])]
         if program == "assemble" and cfg["temperatures"]:
             a += ["--mcmc-temperatures"] + [str(t) for t in cfg["temperatures"]]
         return a
@@ -206,7 +212,7 @@ class Batch:
             a += ["--haplotypes", hapvcf]
             if program == "call-pedigree":
                 a += ["--sample-parents", self.pedigree_file(ds)]
-        a += self.base_args(ds) + self.mcmc_args(program) + ["--cores", str(cores)]
+        a += self.base_args(ds, program) + self.mcmc_args(program) + ["--cores", str(cores)]
         if program != "assemble":
             a = [x for x in a if x not in ()]
         return a
@@ -266,7 +272,9 @@ def run_batch(ctx, b):
     if program != "assemble":
         r = b.run("assemble", b.argv("assemble", ds, 1, bed=ds["bed"]), DAY0, seed_rng=False)
         if r["error"] is not None:
-            raise HarnessError("assemble (input preparation) failed: %r" % r["error"])
+            ctx.counters.inc("input_preparation_failed_skip")
+            ctx.log.add("skip", repr(r["error"])[:200])
+            return
         hap_header, hap_records = r["header"], [l for l in r["records"] if l]
         hv = b.path(".vcf")
         datasets.write_vcf_subset(hv, hap_header, hap_records)
@@ -278,8 +286,10 @@ def run_batch(ctx, b):
         can = b.run(program, b.argv(program, ds, 1, hapvcf=hv), DAY0, seed_rng=False)
         unit_keys = [rec_key(l)[2] for l in hap_records]
     if can["error"] is not None:
-        raise Violation("canonical_run_failed", "single-core run in file order raised %r" % (can["error"],), step=0,
-                        detail={"program": program, "error": repr(can["error"])[:300]})
+        # a loud failure on this input is not C08's subject (the property is an equivalence between runs)
+        ctx.counters.inc("canonical_failed_skip")
+        ctx.log.add("skip", repr(can["error"])[:200])
+        return
     ctx.counters.inc("runs_total")
     can_records = {}
     for l in can["records"]:
@@ -360,7 +370,7 @@ def run_batch(ctx, b):
                 ctx.counters.inc("cores_gt_loci")
                 ctx.counters.inc("empty_block")
         ctx.log.add("run", vi, cores, want_keys, fail_key, [e for e in r["events"] if e[1] in ("exit", "raise", "job.get", "put:post")][:60],
-                    hashlib.sha256(r["out"].encode()).hexdigest(), repr(r["error"])[:80])
+                    hashlib.sha256("\n".join(strip_header(r["header"]) + r["records"]).encode()).hexdigest(), type(r["error"]).__name__)
         check_run(ctx, program, r, can, can_records, want_keys, fail_key, day, multi, vi + 1)
 
 
@@ -449,7 +459,14 @@ def check_run(ctx, program, r, can, can_records, want_keys, fail_key, day, multi
         seen[k] = l
         ctx.counters.inc("records_compared")
     if trailing != "":
-        raise Violation("line_not_intact", "output does not end with a newline-terminated record: %r" % trailing[:80], step=step)
+        # narrow relaxation: in a run that FAILS, the writer may be cut off while it is writing its last
+        # line (the main process is already exiting non-zero); that tail must still be the beginning of the
+        # canonical record of a requested, not yet written, non-failing locus - never garbage.
+        ok_tail = fail_key is not None and r["error"] is not None and any(
+            k != fail_key and k not in seen and can_records[k].startswith(trailing) for k in want_keys)
+        if not ok_tail:
+            raise Violation("line_not_intact", "output does not end with a newline-terminated record: %r" % trailing[:80], step=step)
+        ctx.counters.inc("torn_tail_on_failure")
     extra = set(seen) - set(want_keys)
     if extra:
         raise Violation("line_not_intact", "records for loci that were not requested: %r" % sorted(extra), step=step)
